@@ -202,6 +202,9 @@ def run(ck: Checker):
     tasks = [n for n in walk_shallow_func(f.node) if isinstance(n, ast.Assign) and isinstance(n.value, ast.Call) and (dotted(n.value.func) or '').endswith('create_task')]
     hr = [n for n in walk_shallow_func(f.node) if isinstance(n, ast.Assign) and isinstance(n.value, ast.Call) and (dotted(n.value.func) or '').endswith('handle_request')]
     ok = bool(tasks) and bool(hr) and is_name(tasks[0].value.args[0], hr[0].targets[0].id) and all(isinstance(a, ast.Name) for a in hr[0].value.args)
+    if tasks and not ok and tasks[0].value.args and isinstance(tasks[0].value.args[0], ast.Call) and (dotted(tasks[0].value.args[0].func) or '').endswith('handle_request'):
+        # the coroutine is created in place: create_task(handle_request(path, data))
+        ok = all(isinstance(a, ast.Name) for a in tasks[0].value.args[0].args)
     ck.ob('C18-3', f, tasks[0] if tasks else f.node, ok, 'the task is created from handle_request(path, data) of the record just read' if ok else 'the queued task is not built from the record just read')
     # client side
     f = mod.func('SocketClient._open_connections._keep_receiving')
